@@ -333,4 +333,9 @@ pub fn run(ctx: &Ctx) {
             ctx.sample(json!({"id": id.show(), "form": format!("{:?}", form), "context": CONTEXTS[cx], "chain": chain, "bytes": hex_cap(&bytes, 64)}));
         }
     }
+    // history independence: the same ordinary calls before and after calls that fail or are unusual
+    {
+        let mut hrng = Rng::derive(ctx.seed, 10, 99);
+        super::disturb::probe_history_independence(ctx, "C10", &mut hrng, ctx.pick(16, 60), &super::disturb::standard_probe);
+    }
 }
